@@ -23,19 +23,28 @@ def main(tier):
         src, asy = L.death_program(nest, mode, depth=rnd.choice([1, 3, 12]))
         if asy: role = "module"
         return {"source": src, "path": "/p/main.ts" if role == "module" else None, "mode": "abandon" if mode == "abandon" else "complete",
-                "abandon_after": k, "resp": [{"k": "val", "v": 1}], "role": "death"}, role
+                "abandon_after": k, "resp": [{"k": "val", "v": 1}], "role": "death", "api": "eval" if (k % 2 == 1 or (mode != "abandon" and rnd.random() < 0.5)) and mode != "abandon" else "prepare"}, role
     def add(runs, role, what):
-        ob = {"source": obs_src, "path": "/p/obs.ts" if role == "module" else None, "mode": "complete", "role": "observer"}
-        jobs.append({"id": len(jobs), "runs": runs + [ob]}); metas.append({"kind": "history", "observer_expected": obs_exp}); descr.append(what)
+        ob = {"source": obs_src, "path": "/p/main.ts" if role == "module" else None, "mode": "complete", "role": "observer"}      # same entry path as the dead runs: the exports the host reads are those of the entry module
+        # a script (no module path) has no export table of its own (the host keeps reading the last module's): exports are judged for module observers only
+        jobs.append({"id": len(jobs), "runs": runs + [ob]}); metas.append(dict({"kind": "history", "observer_expected": obs_exp}, **({"observer_exports": L.OBSERVER_EXPORTS} if role == "module" else {}))); descr.append(what)
+        if role == "script":       # ... but what a dead script exported must not surface in a later MODULE either
+            obm = dict(ob, path="/p/main.ts")
+            jobs.append({"id": len(jobs), "runs": runs + [obm]}); metas.append({"kind": "history", "observer_expected": obs_exp, "observer_exports": L.OBSERVER_EXPORTS}); descr.append(what + " (module observer)")
     singles = []
     for nest in L.NEST:
         for mode in ("complete", "throw", "abandon"):
+            if nest in L.NEVER_COMPLETES and mode != "abandon": continue
             for role in ("script", "module"):
                 for k in (ABANDON_POINTS if mode == "abandon" else [0]):
                     singles.append((nest, mode, role, k))
     for (nest, mode, role, k) in singles:
         r, role2 = death(nest, mode, role, k)
-        add([r], role2, "%s/%s/%s/k=%d" % (nest, mode, role2, k))
+        if mode != "abandon":
+            for api in ("prepare", "eval"):
+                add([dict(r, api=api)], role2, "%s/%s/%s/%s" % (nest, mode, role2, api))
+        else:
+            add([r], role2, "%s/%s/%s/k=%d" % (nest, mode, role2, k))
     pairs = rnd.sample([(a, b) for a in singles for b in singles if a[1] != "complete"], 400 if quick else 6000)
     for (a, b) in pairs:
         ra, rolea = death(*a); rb, roleb = death(*b)
